@@ -471,11 +471,14 @@ type c17Merge struct {
 	B packet.NameEntry `json:"b"`
 }
 
+type c17Update struct {
+	Src  int              `json:"src"`
+	N    packet.NameEntry `json:"n"`
+	Host int              `json:"host,omitempty"` // 0: the station's IPv4 host, 1: its link-local host (same MAC entry)
+}
+
 type c17Updates struct {
-	Ups []struct {
-		Src int              `json:"src"`
-		N   packet.NameEntry `json:"n"`
-	} `json:"ups"`
+	Ups []c17Update `json:"ups"`
 }
 
 func genNameEntry(t *rapid.T, l string) packet.NameEntry {
@@ -526,31 +529,59 @@ func c17RunUpdates(tb drv.TB, rec *drv.Rec, sub string, c c17Updates) {
 	rec.Eval()
 	s, _ := newSession(defaultNIC())
 	defer closeSession(s)
+	w := gen.DefaultWorld()
 	mac := net.HardwareAddr{0, 2, 3, 4, 5, 7}
 	s.DHCPv4Update(mac, netip.MustParseAddr("192.168.0.50"), packet.NameEntry{})
-	h := s.FindIP(netip.MustParseAddr("192.168.0.50"))
-	fr := packet.Frame{Host: h}
-	s.Notify(fr)
+	// the same station also uses a link-local address: a second host under the same MAC entry
+	lla := netip.MustParseAddr("fe80::50")
+	fb := ref.Eth(w.RouterMAC, ref.MAC{0, 2, 3, 4, 5, 7}, 0x86dd, ref.IP6(ref.IP6Hdr{PayloadLen: -1, Next: 59, HopLimit: 64, Src: lla.As16(), Dst: netip.MustParseAddr("ff02::1").As16()}, nil))
+	buf := make([]byte, packet.EthMaxSize)
+	if fr6, err := s.Parse(buf[:copy(buf, fb)]); err == nil {
+		s.Notify(fr6)
+	}
+	hosts := [2]*packet.Host{s.FindIP(netip.MustParseAddr("192.168.0.50")), s.FindIP(lla)}
+	if hosts[0] == nil || hosts[1] == nil || hosts[0].MACEntry != hosts[1].MACEntry {
+		tb.Fatalf("c17 updates: could not set up two hosts under one MAC entry")
+	}
+	frs := [2]packet.Frame{{Host: hosts[0]}, {Host: hosts[1]}}
+	for k := range frs {
+		s.Notify(frs[k])
+	}
 	for len(s.C) > 0 {
 		<-s.C
 	}
-	var hostModel, macModel [5]packet.NameEntry
+	var hostModel [2][5]packet.NameEntry
+	var macModel [5]packet.NameEntry
+	eq := func(a, b packet.NameEntry) bool {
+		return a.Name == b.Name && a.Model == b.Model && a.OS == b.OS && a.Manufacturer == b.Manufacturer
+	}
+	both := false
 	for i, u := range c.Ups {
-		src := u.Src % 5
+		src, hi := u.Src%5, u.Host%2
+		if hi == 1 {
+			both = true
+		}
+		h := hosts[hi]
 		applyName(h, src, u.N)
 		var mod bool
-		hostModel[src], mod = mergeName(hostModel[src], u.N)
-		if mod {
-			macModel[src], _ = mergeName(macModel[src], hostModel[src])
+		hostModel[hi][src], mod = mergeName(hostModel[hi][src], u.N)
+		if mod { // the station's entry accumulates what any of its hosts learned; nothing it knew is erased
+			macModel[src], _ = mergeName(macModel[src], hostModel[hi][src])
 		}
-		gotHost := [5]packet.NameEntry{h.DHCP4Name, h.MDNSName, h.SSDPName, h.LLMNRName, h.NBNSName}
+		for x := 0; x < 2; x++ {
+			g := hosts[x]
+			gotHost := [5]packet.NameEntry{g.DHCP4Name, g.MDNSName, g.SSDPName, g.LLMNRName, g.NBNSName}
+			for k := 0; k < 5; k++ {
+				if !eq(gotHost[k], hostModel[x][k]) {
+					rec.Violation(tb, sub, "c17-update-fields", c, "after update %d (%s, host %d): host %d holds %+v, model %+v", i, nameSrcType[k], hi, x, gotHost[k], hostModel[x][k])
+					return
+				}
+			}
+		}
 		gotMAC := [5]packet.NameEntry{h.MACEntry.DHCP4Name, h.MACEntry.MDNSName, h.MACEntry.SSDPName, h.MACEntry.LLMNRName, h.MACEntry.NBNSName}
 		for k := 0; k < 5; k++ {
-			eq := func(a, b packet.NameEntry) bool {
-				return a.Name == b.Name && a.Model == b.Model && a.OS == b.OS && a.Manufacturer == b.Manufacturer
-			}
-			if !eq(gotHost[k], hostModel[k]) || !eq(gotMAC[k], macModel[k]) {
-				rec.Violation(tb, sub, "c17-update-fields", c, "after update %d (%s): host %+v / mac %+v, model host %+v / mac %+v", i, nameSrcType[k], gotHost[k], gotMAC[k], hostModel[k], macModel[k])
+			if !eq(gotMAC[k], macModel[k]) {
+				rec.Violation(tb, sub, "c17-update-fields", c, "after update %d (%s, host %d): mac entry holds %+v, model %+v", i, nameSrcType[k], hi, gotMAC[k], macModel[k])
 				return
 			}
 		}
@@ -558,10 +589,13 @@ func c17RunUpdates(tb drv.TB, rec *drv.Rec, sub string, c c17Updates) {
 			rec.Violation(tb, sub, "c17-update-dirty", c, "after update %d: Dirty()=%v, the update modified=%v", i, h.Dirty(), mod)
 			return
 		}
-		s.Notify(fr) // clears the pending flag as the packet loop would
+		s.Notify(frs[hi]) // clears the pending flag as the packet loop would
 		for len(s.C) > 0 {
 			<-s.C
 		}
+	}
+	if both {
+		rec.Class("updates: both hosts of the station updated")
 	}
 	if len(c.Ups) >= 2 {
 		rec.NonTrivial(drv.HashJSON(c), func() interface{} { return c })
@@ -659,10 +693,7 @@ func TestC17(t *testing.T) {
 	drv.Prop(t, rec, "updates", 1500, 30000, func(t *rapid.T) c17Updates {
 		var c c17Updates
 		for i := rapid.IntRange(1, 12).Draw(t, "n"); i > 0; i-- {
-			c.Ups = append(c.Ups, struct {
-				Src int              `json:"src"`
-				N   packet.NameEntry `json:"n"`
-			}{rapid.IntRange(0, 4).Draw(t, "src"), genNameEntry(t, "u")})
+			c.Ups = append(c.Ups, c17Update{Src: rapid.IntRange(0, 4).Draw(t, "src"), N: genNameEntry(t, "u"), Host: rapid.SampledFrom([]int{0, 0, 1}).Draw(t, "host")})
 		}
 		return c
 	}, func(tb drv.TB, c c17Updates) { c17RunUpdates(tb, rec, "updates", c) })
